@@ -47,13 +47,13 @@ pub fn areas() -> Vec<&'static str> {
     vec![
         "c03",
         "c04",
+        "c07",
         "c10",
         "c14",
         "c17",
         "c18",
         "c19",
     ]
-    vec!["c07", "c17"]
 }
 
 /// Decode a hex string.
